@@ -11,6 +11,7 @@ P123 = D122 + "/f2345678.bin"
 EXPAND = {"e": ["-e"], "d": ["-d"], "v": ["-v"], "V": ["-V"], "h": ["-h"], "le": ["--encode"], "ld": ["--decode"], "lv": ["--verify"],
           "en": ["-en"], "dn": ["-dn"], "vn": ["-vn"], "n": ["-n"],
           "iF": ["-i", "F.bin"], "iE": ["--input", "E.wenc"], "iMissing": ["-i", "missing.bin"], "iLong": ["-i", LONGDIR + "/f.bin"], "iLen122": ["-i", P122], "iLen123": ["-i", P123], "iNoArg": ["-i"], "iProc": ["-i", "/proc/version"],
+          "iBadC": ["-i", "BadC.wenc"], "iBadH": ["-i", "BadH.wenc"], "iTam": ["-i", "Tam.wenc"], "iEmpty": ["-i", "Empty.bin"],
           "oO": ["-o", "O.out"], "oBad": ["-o", "nodir/x.out"],
           "kK": ["-k", K], "kW": ["--key", W], "kShort": ["-k", K[:-1]], "kBadChar": ["-k", K[:20] + "!" + K[21:]],
           "kNoPad": ["-k", K[:22] + "AA"], "kOnePad": ["-k", K[:22] + "A="], "kLong": ["-k", K[:22] + "AAAA=="], "kHigh": ["-k", K[:5] + "\udcc1" + K[6:]],
@@ -44,6 +45,11 @@ def make_template(exe, root):
     rc, out, to = run_bin(exe, ["-e", "-i", "F.bin", "-o", "E.wenc", "-k", K, "--cmode", "1"], t)
     if rc != 0 or not os.path.exists(os.path.join(t, "E.wenc")):
         raise wv.Infra("cannot create the fixture E.wenc with the binary under test (rc=%s): %s" % (rc, out[-600:]))
+    e = open(os.path.join(t, "E.wenc"), "rb").read()
+    open(os.path.join(t, "BadC.wenc"), "wb").write(e[:8] + b"\x05" + e[9:])        # first cipher-mode value out of range
+    open(os.path.join(t, "BadH.wenc"), "wb").write(e[:9] + b"\x03" + e[10:])       # first hash-mode value out of range
+    open(os.path.join(t, "Tam.wenc"), "wb").write(e[:-1] + bytes([e[-1] ^ 1]))
+    open(os.path.join(t, "Empty.bin"), "wb").write(b"")
     return t
 
 
@@ -81,7 +87,7 @@ def one_vector(exe, template, root, idx, vec):
         if mode == "e":
             inp = None; outp = None; key = None
             for t in toks:
-                if t in ("iF", "iE", "iLong", "iProc", "iLen122", "iLen123"): inp = EXPAND[t][1]
+                if t in ("iF", "iE", "iLong", "iProc", "iLen122", "iLen123", "iBadC", "iBadH", "iTam", "iEmpty"): inp = EXPAND[t][1]
                 if t == "oO": outp = "O.out"
                 if t in ("kK", "kW"): key = EXPAND[t][1]
             if outp is None and inp is not None:
@@ -94,7 +100,7 @@ def one_vector(exe, template, root, idx, vec):
             else:
                 r1, o1, _ = run_bin(exe, ["-v", "-i", outp, "-k", key, "-n"], d)
                 r2, o2, _ = run_bin(exe, ["-d", "-i", outp, "-o", "back.bin", "-k", key, "-n"], d)
-                src = open(os.path.join(d, inp), "rb").read() if inp != "E.wenc" else open(os.path.join(template, "E.wenc"), "rb").read()   # os.path.join keeps an absolute inp
+                src = open(os.path.join(d, inp), "rb").read() if not inp.endswith(".wenc") else open(os.path.join(template, inp), "rb").read()   # os.path.join keeps an absolute inp
                 back = open(os.path.join(d, "back.bin"), "rb").read() if os.path.exists(os.path.join(d, "back.bin")) else None
                 if r1 != 0 or r2 != 0 or back != src:
                     ok, note = False, "output does not verify/decrypt back to the input with the key (verify rc=%s decrypt rc=%s)" % (r1, r2)
@@ -110,6 +116,28 @@ def one_vector(exe, template, root, idx, vec):
         ev["effect"], ev["effect_note"] = (1 if ok else 0), note
     shutil.rmtree(d, ignore_errors=True)
     return ev
+
+
+def pairwise_cover(allv, have, budget=150):
+    """Greedy selection of vectors (at most `budget`) towards every ORDERED pair of tokens (a somewhere before b) that occurs in any
+    generated vector occurs in a selected one: option-order and repeated-option effects are pair effects."""
+    def pairs(toks):
+        return {(toks[i], toks[j]) for i in range(len(toks)) for j in range(i + 1, len(toks))}
+    cand = [(v, pairs(v["tokens"])) for v in allv]
+    need = set().union(*[p for _, p in cand]) if cand else set()
+    for v, p in cand:
+        if tuple(v["tokens"]) in have:
+            need -= p
+    chosen = []
+    cand = [c for c in cand if tuple(c[0]["tokens"]) not in have]
+    cand.sort(key=lambda c: (-len(c[1]), c[0]["tokens"]))
+    while need and len(chosen) < budget:
+        best = max(cand, key=lambda c: len(c[1] & need))
+        gain = best[1] & need
+        if not gain:
+            break
+        chosen.append(best[0]); need -= gain
+    return chosen
 
 
 def run(tier, replay):
@@ -130,7 +158,11 @@ def run(tier, replay):
         okv = [v for v in allv if v["class"] != "FAIL"]
         failv = [v for v in allv if v["class"] == "FAIL"]
         if tier == "quick":
-            vecs = rng.sample(okv, min(len(okv), 260)) + rng.sample(failv, 340)
+            core = [v for v in allv if v.get("core")]          # one fault at a time around the three principal command lines
+            vecs = core + pairwise_cover(allv, set(tuple(v["tokens"]) for v in core))
+            have = set(tuple(v["tokens"]) for v in vecs)
+            vecs += [v for v in rng.sample(okv, min(len(okv), 100)) + rng.sample(failv, 100) if tuple(v["tokens"]) not in have]
+            res.cov["quick_selection"] = {"core_single_fault_vectors": len(core), "total": len(vecs)}
             # the pinned defects' vectors are always included
             must = [["e", "iLen122"], ["e", "iLen123"], ["en", "iLen123", "kK"], ["e", "iProc"], ["e", "iProc", "oO"], ["en", "iProc"], ["d", "iE", "oO"], ["v", "iE"], ["d", "iE", "kK"], ["e", "iLong"], ["e", "iF", "oO", "c256"], ["e", "iF", "oO", "kNoPad"], ["e", "iF", "oO", "kOnePad"], ["e", "iF", "oO", "kHigh"], ["d", "iE", "oO", "kHigh"], ["e", "iF"], ["d"], ["v"], ["e"]]
             have = set(tuple(v["tokens"]) for v in vecs)
@@ -160,7 +192,7 @@ def run(tier, replay):
         classes[e["class"]] = classes.get(e["class"], 0) + 1
     res.cov.update({"traces_validated_against_impl": len(events), "evaluations": len(events), "distinct_nontrivial": len(set(tuple(e["tokens"]) for e in events if len(e["tokens"]) >= 2)),
                     "classes_executed": classes,
-                    "rule": "CLI.tla assigns every token sequence its outcome class; CLIVectors.tla (TLC) enumerates the well-formed base vectors of every mode with all single-token replacements/insertions/deletions and permutations plus every vector of length <= 2 (4350 vectors) and checks design-level ASSUMEs (no/two modes, missing key, every malformed value fail). The driver runs the real Wencry binary built from the working tree (ASan+UBSan) in a scratch directory per vector (quick: seeded sample of 600 + the vectors of the repaired defects; thorough: all), records exit status / signal / diagnostic / files created, and verifies the effect of successful operations independently (the output verifies and decrypts back with the given or printed key; -d restores the plaintext; -v creates nothing). TLC judges every run. Non-trivial = at least two tokens.",
+                    "rule": "CLI.tla assigns every token sequence its outcome class; CLIVectors.tla (TLC) enumerates the well-formed base vectors of every mode with all single-token replacements/insertions/deletions and permutations plus every vector of length <= 2 (all of them in the thorough tier) and checks design-level ASSUMEs (no/two modes, missing key, every malformed value fail). The driver runs the real Wencry binary built from the working tree (ASan+UBSan) in a scratch directory per vector (quick: every single-token replacement / insertion / deletion of the three principal command lines, 150 vectors chosen greedily to cover ordered token pairs, a seeded sample of 200 and the vectors of the repaired defects; thorough: all), records exit status / signal / diagnostic / files created, and verifies the effect of successful operations independently (the output verifies and decrypts back with the given or printed key; -d restores the plaintext; -v creates nothing). TLC judges every run. Non-trivial = at least two tokens.",
                     "validator_states": st["states"], "exhaustive": tier == "thorough"})
     for e in events[:: max(1, len(events) // 4)][:4]:
         res.sample({k: e[k] for k in ("tokens", "class", "argv", "rc", "sig", "diag", "effect")})
